@@ -85,7 +85,7 @@ func (s *sourcePluginAdapter) Run(ctx context.Context, stream pconnector.SourceR
 
 	s.logger.Debug(ctx).Msg("calling Run")
 	go func() {
-		err := s.impl.Run(s.withLogger(ctx), stream)
+		err := runSandboxNoResp(s.impl.Run, s.withLogger(ctx), stream)
 		if err != nil {
 			if !inmemStream.Close(err) {
 				s.logger.Err(ctx, err).Msg("stream already stopped")
